@@ -24,7 +24,7 @@ func init() {
 			}
 			return 1600
 		},
-		Rule: "case = reference tree (rooted or not) + 1..50 bootstrap trees (binary and multifurcating, perturbation distance from identical to random) on 4..60 taxa, one case in forty with 255..1000 bootstrap trees on 4..10 taxa; FBP and TBE (1 thread) against brute force on the model (split membership; min over all bootstrap branches of min(Hamming, n-Hamming)); FBP, TBE, FBP in a row on one reference object; tree objects with a past; invariance under order/re-rooting/rotation; rejection of a bootstrap tree on other taxa at any position; every 8th case through gotree compute support fbp|tbe; non-trivial = some inner branch has 0 < FBP < 1 or 0 < TBE < 1; distinct by texts",
+		Rule: "case = reference tree (rooted or not) + 1..50 bootstrap trees (binary and multifurcating, perturbation distance from identical to random) on 4..60 taxa, one case in forty with 255..1000 bootstrap trees on 4..10 taxa; FBP and TBE (1 thread) against brute force on the model (split membership; min over all bootstrap branches of min(Hamming, n-Hamming)); FBP, TBE, FBP in a row on one reference object; tree objects with a past (renamed after indexing; re-rooted after parsing); invariance under order/re-rooting/rotation; rejection of a bootstrap tree on other taxa at any position; every 8th case through gotree compute support fbp|tbe; non-trivial = some inner branch has 0 < FBP < 1 or 0 < TBE < 1; distinct by texts",
 		Assumptions: []string{
 			"asserted for reference branches whose light side has >= 2 tips (the structurally inner root branch next to a tip child of a rooted reference is left unasserted)",
 			"trees come from the Newick parser, as in every real use (TBE relies on the branch ids the reader assigns)",
